@@ -219,6 +219,35 @@ Example list_stores_subset_partial_ex :
   list_stores g (fun _ => Some [[66]]) (Claims [108]) [] [([65], [97]); ([66], [98])] = LSStores [[66]].
 Proof. vm_compute. split; reflexivity. Qed.
 
+(* the accessible list may name stores that were deleted or never existed and may be longer
+   than the list of live stores: every returned id is accessible and live *)
+Theorem list_stores_live_subset_partial : forall g la cl name all acc ids,
+  accessible_stores g la cl = Some acc -> acc <> [] ->
+  list_stores g la cl name all = LSStores ids ->
+  forall s, In s ids -> In s acc /\ In s (map fst all).
+Proof. exact AuthzProofs.list_stores_live_subset_partial. Qed.
+Print Assumptions list_stores_live_subset_partial.
+(* grants on A, B (deleted), C (deleted) and a ghost: 4 ids, 3 live stores (root R, A, new N) *)
+Example list_stores_live_subset_partial_ex :
+  let g : grant_oracle := fun _ r _ => match r with R_CanCallListStores => Some true | _ => Some false end in
+  let la : list_oracle := fun _ => Some [[65]; [66]; [67]; [71]] in
+  list_stores g la (Claims [108]) [] [([82], [114]); ([65], [97]); ([78], [110])] = LSStores [[65]] /\
+  list_stores_sqlite g la (Claims [108]) [] [([82], [114]); ([65], [97]); ([78], [110])] = LSStores [[65]].
+Proof. vm_compute. split; reflexivity. Qed.
+
+Theorem backend_list_stores_exact : forall ids name all st,
+  ids <> [] ->
+  (In st (backend_list_stores ids name all) <->
+   In st all /\ In (fst st) ids /\ (name = [] \/ snd st = name)).
+Proof. exact AuthzProofs.backend_list_stores_exact. Qed.
+Print Assumptions backend_list_stores_exact.
+
+(* the memory filter (nested scan) and the sqlite filter (IN list) select the same stores *)
+Theorem backend_list_stores_same_members : forall ids name all st,
+  In st (backend_list_stores ids name all) <-> In st (backend_list_stores_sqlite ids name all).
+Proof. exact AuthzProofs.backend_list_stores_same_members. Qed.
+Print Assumptions backend_list_stores_same_members.
+
 Theorem list_stores_gettable_partial : forall g la c name all acc ids,
   accessible_stores g la (Claims c) = Some acc -> acc <> [] ->
   (forall s, In s acc -> g c R_CanCallGetStore (OStore s) = Some true) ->
